@@ -152,7 +152,7 @@ let check_stream line =
   | _ -> failwith "case"
 
 (* flow-text case (Spec/FlowText.v):  W <cps> | S <n> (n node | p <key cps> node)^n | M <n> (<key cps> node)^n
-   output: <fwf> <is_coll> <depth>|<doc_text cps>|<wrap false false (tokens_of (lt f))>|<wrap_events false (events_of (lt f))> *)
+   output: <fwf> <is_coll> <depth> <fgram>|<doc_text cps>|<wrap false false (tokens_of (lt f))>|<wrap_events false (events_of (lt f))> *)
 let rec int_of_nat = function O -> 0 | S n -> 1 + int_of_nat n
 let rec fnode = function
   | "W" :: w :: r -> (FW (of_cps w), r)
@@ -170,8 +170,30 @@ let check_flow line =
   let (f, rest) = fnode (List.filter (fun s -> s <> "") (String.split_on_char ' ' (String.trim line))) in
   if rest <> [] then failwith "trailing input";
   let t = lt f in
-  Printf.sprintf "%s %s %d|%s|%s|%s" (b (fwf f)) (b (is_coll f)) (int_of_nat (depth f))
+  Printf.sprintf "%s %s %d %s|%s|%s|%s" (b (fwf f)) (b (is_coll f)) (int_of_nat (depth f)) (b (fgram f))
     (String.concat " " (List.map (fun c -> string_of_int (int_of_n c)) (doc_text f)))
+    (String.concat ";" (List.map tok_body (wrap false false (tokens_of t))))
+    (String.concat ";" (List.map ev_body (wrap_events false (events_of t))))
+
+(* block-text case (Spec/BlockText.v):  W <cps> | S <place> <n> node^n | M <place> <n> (<key cps> node)^n | I <n> node^n (indentless),  place = - (compact) | d
+   output: <bwf_root> <bdepth>|<bdoc_text cps>|<wrap false false (tokens_of (blt n))>|<wrap_events false (events_of (blt n))> *)
+let rec nat_of_int n = if n <= 0 then O else S (nat_of_int (n - 1))
+let place = function "-" -> None | d -> Some (nat_of_int (int_of_string d))
+let rec bnode = function
+  | "W" :: w :: r -> (BW (of_cps w), r)
+  | "S" :: pl :: n :: r -> let (l, r) = many bnode (int_of_string n) r in (BS (place pl, l), r)
+  | "M" :: pl :: n :: r -> let (l, r) = many bpair (int_of_string n) r in (BM (place pl, l), r)
+  | "I" :: n :: r -> let (l, r) = many bnode (int_of_string n) r in (BI l, r)
+  | _ -> failwith "bnode"
+and bpair = function
+  | k :: r -> let (x, r) = bnode r in ((of_cps k, x), r)
+  | [] -> failwith "bpair"
+let check_block line =
+  let (n, rest) = bnode (List.filter (fun s -> s <> "") (String.split_on_char ' ' (String.trim line))) in
+  if rest <> [] then failwith "trailing input";
+  let t = blt n in
+  Printf.sprintf "%s %d|%s|%s|%s" (b (bwf_root n)) (int_of_nat (bdepth n))
+    (String.concat " " (List.map (fun c -> string_of_int (int_of_n c)) (bdoc_text n)))
     (String.concat ";" (List.map tok_body (wrap false false (tokens_of t))))
     (String.concat ";" (List.map ev_body (wrap_events false (events_of t))))
 
@@ -182,6 +204,7 @@ let () =
     | "check" -> check line
     | "stream" -> check_stream line
     | "flow" -> check_flow line
+    | "block" -> check_block line
     | "tokens" -> let (es, ee, t) = parse_case line in String.concat ";" (List.map tok_body (wrap es ee (tokens_of t)))
     | _ -> failwith "mode" in
   try
